@@ -122,7 +122,7 @@ def build(strategy, cfg, f, obs, reference, norm):
 def gen_cfg(rng, strategy, tier):
     if strategy == "dimwise":
         cfg = dimwise.gen_config(rng, tier, dims=(1, 2, 2, 3), box_kinds=["unit", "unit", "shifted", "dyadic"])
-        cfg["profile"] = rng.choice(["real", "real", "uniform", "sparse", "ties", "single"])
+        cfg["profile"] = rng.choice(["real", "real", "real_punished", "uniform", "sparse", "ties", "single"])
         if cfg["d"] == 3 and cfg["lmax"] > 3:
             cfg["lmin"], cfg["lmax"] = 1, 2
     elif strategy == "extsplit":
